@@ -18,7 +18,7 @@ tvars == <<vars, l>>
 
 AllFaults == {"connect", "handshake", "close", "upgrade"}
 
-TraceInit == Init /\ l = 0 /\ cfg = [cap |-> FALSE, maxIdle |-> 0, it |-> 0]
+TraceInit == Init /\ l = 0 /\ cfg = [cap |-> FALSE, maxIdle |-> 0, it |-> 0, alive |-> TRUE]
 
 \* the event of the model step agrees with the recorded action and result
 EvMatch(e, m) ==
@@ -35,6 +35,7 @@ EvMatch(e, m) ==
     [] e.e = "Bg" -> /\ m.r = e.r
                      /\ IF e.d # 0 THEN m.e = "BgDialStart" /\ m.d = e.d ELSE m.e \in {"BgDone", "BgFail"}
     [] e.e = "Tick" -> m.e = "Tick"
+    [] e.e = "DropPool" -> m.e = "DropPool"
     [] OTHER -> FALSE
 
 \* the observable state of the model agrees with the recorded one
@@ -50,7 +51,7 @@ ObsMatch(o, m) ==
 
 \* a fresh pool with the recorded configuration (the primed copy of Pool!Init)
 ResetStep(e) ==
-  /\ cfg' = [cap |-> e.cfg.cap, maxIdle |-> e.cfg.maxIdle, it |-> e.cfg.idleTimeout]
+  /\ cfg' = [cap |-> e.cfg.cap, maxIdle |-> e.cfg.maxIdle, it |-> e.cfg.idleTimeout, alive |-> TRUE]
   /\ connecting' = {}
   /\ waiting' = [o \in Origins |-> <<>>]
   /\ idle' = [o \in Origins |-> <<>>]
